@@ -10,11 +10,14 @@ MUTATORS = {"append", "extend", "pop", "popitem", "remove", "clear", "update", "
 HEAP_FUNCS = {"heappush", "heappop", "heapify", "heapreplace", "heappushpop"}
 
 _flow_cache = {}
+ANALYSED = {}     # qualified name -> module, for every function whose flow graph a rule asked for (thorough tier: what to mutate)
 
 
 def flow_of(finfo, track_self=False):
     """Flow (CFG + reaching definitions) of a FuncInfo, cached per AST node."""
     k = (id(finfo.node), track_self)
+    if getattr(finfo, "qual", None):
+        ANALYSED[finfo.qual] = finfo.module
     if k not in _flow_cache:
         if len(_flow_cache) > 4000:
             _flow_cache.clear()
